@@ -19,7 +19,7 @@ open ElaVerif.Index ElaVerif.Node
 theorem C30_guard (s : NState) (b : Block) (h : isIrreversible s s.tip.height (reorgPlan s b).1 = true) :
     (sideOrReorg s b).1.active = s.active ∧ (sideOrReorg s b).2 = .side := by
   unfold sideOrReorg
-  by_cases h1 : b.height ≤ s.tip.height
+  by_cases h1 : chainWork s b ≤ chainWork s s.tip
   · simp [h1, cleanPool]
   · simp [h1, h, cleanPool]
 
